@@ -4,6 +4,7 @@ import (
 	"fmt"
 	"io"
 	"os"
+	"path"
 	"path/filepath"
 	"strings"
 	"sync"
@@ -232,8 +233,11 @@ func (c *LocalActionsCache) FindMetadata(spec string) (*ActionMetadata, bool, er
 	if c.proj == nil || !strings.HasPrefix(spec, "./") {
 		return nil, false, nil
 	}
+	// "./act", "./act/" and "./dir/../act" are the same action. Use one key for them so that the
+	// action is read and its metadata is checked only once
+	key := path.Clean(spec)
 
-	if m, ok := c.readCache(spec); ok {
+	if m, ok := c.readCache(key); ok {
 		c.debug("Cache hit for %s: %v", spec, m)
 		return m, true, nil
 	}
@@ -243,7 +247,7 @@ func (c *LocalActionsCache) FindMetadata(spec string) (*ActionMetadata, bool, er
 	if !ok {
 		c.debug("No action metadata found in %s", dir)
 		// Remember action was not found
-		c.writeCache(spec, nil)
+		c.writeCache(key, nil)
 		// Do not complain about the action does not exist (#25, #40).
 		// It seems a common pattern that the local action does not exist in the repository
 		// (e.g. Git submodule) and it is cloned at running workflow (due to a private repository).
@@ -252,7 +256,7 @@ func (c *LocalActionsCache) FindMetadata(spec string) (*ActionMetadata, bool, er
 
 	var meta ActionMetadata
 	if err := yaml.Unmarshal(b, &meta); err != nil {
-		if m, ok := c.writeCacheIfAbsent(spec, nil); !ok { // Remember action was invalid
+		if m, ok := c.writeCacheIfAbsent(key, nil); !ok { // Remember action was invalid
 			return m, true, nil // Another goroutine already found (and reported) it
 		}
 		msg := strings.ReplaceAll(err.Error(), "\n", " ")
@@ -263,7 +267,7 @@ func (c *LocalActionsCache) FindMetadata(spec string) (*ActionMetadata, bool, er
 	meta.dir = dir
 
 	c.debug("New metadata parsed from action %s: %v", dir, &meta)
-	if m, ok := c.writeCacheIfAbsent(spec, &meta); !ok {
+	if m, ok := c.writeCacheIfAbsent(key, &meta); !ok {
 		return m, true, nil // Another goroutine already found (and checked) it
 	}
 	return &meta, false, nil
